@@ -535,3 +535,23 @@ B("C29", "no-outlives-under-invariance", "chalk-solve/src/infer/unify.rs",
 B("C11", "cache-despite-interruption", "chalk-recursive/src/fixed_point.rs",
   "                    Some(cache) if !interrupted => {", "                    Some(cache) if !interrupted || true => {",
   "C11.NO-TAINTED-CACHE:rec::fixed_point::RecursiveContext::solve_goal:move_to_cache")
+B("C11", "unwrap-on-reproved-obligation", "chalk-recursive/src/fulfill.rs",
+  "                    } = self.prove(goal, minimums, should_continue.clone())?;",
+  "                    } = self.prove(goal, minimums, should_continue.clone()).unwrap();", "C11.SOLVE-ERRORS-PROPAGATE")
+B("C19", "overlap-error-overwritten", "chalk-solve/src/coherence/solve.rs",
+  "                        return Err(CoherenceError::OverlappingImpls(self.trait_id));",
+  "                        if l_id == r_id { return Err(CoherenceError::OverlappingImpls(self.trait_id)); }", "C19.ALL-PAIRS:overlap-error-is-final")
+B("C07", "invariant-alias-kept", "chalk-solve/src/infer/unify.rs",
+  """            TyKind::Alias(_) => {
+                let ena_var = self.table.new_variable(universe_index);
+                ena_var.to_ty(interner)
+            }""",
+  """            TyKind::Alias(_) => {
+                if universe_index.counter == usize::MAX {
+                    return ty.clone();
+                }
+                let ena_var = self.table.new_variable(universe_index);
+                ena_var.to_ty(interner)
+            }""", "C07.ALIAS-GENERALIZED")
+B("C22", "alias-counter-not-advanced", "chalk-solve/src/display/state.rs",
+  "            *next_unused += 1;\n", "", "C22.NAME-INJECTIVE:alias_for_id_name:counter-advanced")
